@@ -270,6 +270,22 @@ mutant('D2-updated-publishes-reset', ['C01'], [
 mutant('D2-reset-helper-publishes-for-wrong-kind', ['C08'], [
     ('src/incarnation_db.rs', "            LocationAndType::StorageReset(address),\n            MemoryValue::StorageReset,\n            estimate,\n            write_set,", "            LocationAndType::StorageReset(address),\n            MemoryValue::StorageReset,\n            false,\n            write_set,"),
 ], ['|D2|'])
+mutant('X6-account-snapshots-never-cleared', ['C01', 'C09'], [
+    (I, "        self.account_snapshots.clear();\n        self.blocking_txs.clear();", "        self.blocking_txs.clear();"),
+    (I, "        let write_set = self.publish_writes(changes, estimate);\n        self.account_snapshots.clear();", "        let write_set = self.publish_writes(changes, estimate);"),
+], ['|X6|'])
+mutant('X6-failed-attempt-leaks-its-read-set', ['C01'], [
+    (I, "        self.version = version;\n        self.read_set.clear();", "        self.version = version;"),
+    (I, "        // incarnation instead of moving and immediately dropping it in the scheduler.\n        self.read_set.clear();", "        // incarnation instead of moving and immediately dropping it in the scheduler."),
+], ['|X6|'])
+benign('B-begin-does-not-repeat-the-resets-of-finish-and-discard', ['C01', 'C09'], [
+    (I, "        self.read_set.clear();\n        self.account_snapshots.clear();\n        self.blocking_txs.clear();\n        self.blocked_by_beneficiary = false;\n    }\n\n    /// Finish a successful", "    }\n\n    /// Finish a successful"),
+    (I, """        debug_assert!(self.read_set.is_empty(), "previous incarnation was not finished");
+        debug_assert!(self.account_snapshots.is_empty(), "previous incarnation was not finished");
+        debug_assert!(self.blocking_txs.is_empty(), "previous incarnation was not finished");
+        debug_assert!(!self.blocked_by_beneficiary, "previous incarnation was not finished");
+""", ""),
+])
 mutant('K1-snapshot-only-code-changed', ['C01'], [
     (I, "account_snapshot.is_none_or(|basic| basic.code_hash != Some(info.code_hash));", "account_snapshot.is_some_and(|basic| basic.code_hash != Some(info.code_hash));"),
 ], ['|D2|', '|K1|'])
